@@ -27,7 +27,7 @@ for d in sorted(os.listdir(root)):
         "variant": d,
         "what_it_needs_to_manifest": notes.strip()[:1500],
         "confirmed_by_me": confirmed,
-        "what_i_ran": "tools/seed_eval.sh in the scratch worktree /tmp/vp-seed-%s: git apply patch.diff; go build ./... && go test -vet=off -count=1 ./... (must pass); demo test copied in and run (must fail); VP_REPO=<worktree> ./bin/gosym check <ids> (quick tier) with the change applied; change reverted; demo run again (must pass)" % prop,
+        "what_i_ran": "tools/seed_eval.sh in the scratch worktree %s: git apply patch.diff; go build ./... && go test -vet=off -count=1 ./... (must pass); demo test copied in and run (must fail); VP_REPO=<worktree> ./bin/gosym check <ids> (quick tier) with the change applied; change reverted; demo run again (must pass)" % (('/tmp/wt-' if d.endswith('-C') else '/tmp/vp-seed-') + prop),
         "evaluation_log": log.strip().split('\n'),
         "checks": checks,
         "caught_by": caught,
